@@ -101,12 +101,14 @@ def run(ctx, chk):
                 ok, why = prove_pos(dres, r.facts)
                 how = "hidden strictly decreases"
                 if not ok:
-                    eqres, _ = prove_zero(dres, r.facts)
+                    # lexicographic variant (hidden, remaining): hidden does not grow and remaining strictly decreases
+                    from ..terms import prove_nonneg
+                    eqres, _ = prove_nonneg(dres, r.facts)
                     hv = remaining_local(r, marker)
                     if eqres and hv is not None:
                         newv = r.state.frames[0].locals.get(hv[2])
                         ok, why = prove_pos(affine(hv).add(affine(newv), -1), r.facts)
-                        how = "hidden equal, remaining strictly decreases"
+                        how = "hidden does not grow, remaining strictly decreases"
                     else:
                         ok = False
                 chk.require(ok, "T2", fn, e[5],
